@@ -241,12 +241,20 @@ theorem filter_eq_dictDel (d : Dict PVal) (fs fe : String) :
   funext kv
   by_cases h1 : kv.1 = fs <;> by_cases h2 : kv.1 = fe <;> simp [h1, h2, bne, Bool.and_comm]
 
+/-- the property filter with the two field names in the other order (a harmless rewrite of the source) -/
+theorem filter_eq_dictDel' (d : Dict PVal) (fs fe : String) :
+    (d.filter fun kv => !(kv.1 == fe || kv.1 == fs)) = dictDel (dictDel d fs) fe := by
+  rw [← filter_eq_dictDel]
+  congr 1
+  funext kv
+  rw [Bool.or_comm]
+
 /-- one row: `conv_map` dispatch, `_get_dt`, the property filter, `from_pyshp` -/
 theorem rloop2_step (fs fe : String) (cm : List (String × Kind)) (rd : ShpFileR) (hcm : ∀ t, dictGet cm t = convMap t)
     (shapes : List Shape) (row : ShpShapeR × Dict PVal) :
     SrcIo.fromShapefile.loop2 fs fe cm rd shapes row = (readRow fs fe row).map (shapes ++ [·]) := by
   unfold SrcIo.fromShapefile.loop2 readRow classGet
-  simp only [hcm, filter_eq_dictDel]
+  simp only [hcm, filter_eq_dictDel, filter_eq_dictDel']
   cases hk : convMap row.1.gtype with
   | none => rfl
   | some k =>
@@ -457,6 +465,18 @@ theorem toFastkmlFolder_eq (coll : List Shape) (name : String) :
   have h : (fun x => SrcIo.toFastkmlPlacemark x) = toPlacemark := funext toFastkmlPlacemark_eq
   simp only [h]
   cases mapExcept toPlacemark coll <;> rfl
+
+/-- `TimeInterval._from_fastkml` on a time stamp / time span is the model's `fromKTime` (the caller only hands it a
+    time object that is present; anything else is the `ValueError` of its last line) -/
+theorem tiFromFastkml_eq (kt : KTime) :
+    (SrcIo.tiFromFastkml kt).map some = match kt with | .none => .error "ERR:Value" | kt => fromKTime kt := by
+  unfold SrcIo.tiFromFastkml
+  cases kt with
+  | none => rfl
+  | stamp t => simp [ktIsStamp, ktTimestampDt, tiOfInts, fromKTime, Except.map, bind, Except.bind]
+  | span b e =>
+    by_cases h : e < b <;>
+      simp [ktIsStamp, ktIsSpan, ktBeginDt, ktEndDt, tiOfInts, fromKTime, Except.map, bind, Except.bind, h]
 
 /-! ## the importers with the translated helpers in place, and the headline theorems restated for them
 
